@@ -76,7 +76,8 @@ def _group(ctx, f):
     gname = ast.unparse(creates[0].targets[0].value)
     # candidates
     m1 = [n for n in lp.body if isinstance(n, ast.Assign)
-          and "intersection" in ast.unparse(n.value)]
+          and isinstance(n.value, ast.Call)
+          and ast.unparse(n.value.func).startswith("set.")]
     ctx.require(len(m1) == 1, f"{f.qual}: candidate intersection not found")
     mname = ast.unparse(m1[0].targets[0])
     ok = ast.unparse(m1[0].value) == \
